@@ -55,9 +55,14 @@ Definition file_named (p : pkg) (n : string) : list tspec :=
   | None => []
   end.
 
+(* -file must be a .go file of the package directory *)
+Definition file_arg_ok (fl : cflags) (p : pkg) : bool :=
+  (fl_file fl =? "") || (ends_with ".go" (fl_file fl) && mem (fl_file fl) (map f_name (p_files p))).
+
 (* what a command line must produce *)
 Definition spec (c : subcmd) (fl : cflags) (p : pkg) : expect :=
-  if fl_specified fl then
+  if negb (file_arg_ok fl p) then EFail
+  else if fl_specified fl then
     let L := fl_types fl in
     if forallb (nameable c p) L &&
        ((fl_file fl =? "") || forallb (fun T => decl_file p T =? fl_file fl) L)
@@ -80,13 +85,40 @@ Fixpoint nodupb (l : list string) : bool :=
   | x :: l' => negb (mem x l') && nodupb l'
   end.
 
-(* a skeleton of the grammar: type names (package-level and function-local)
-   pairwise distinct, file names pairwise distinct, an alias declaration has a
-   type name on its right-hand side (not a struct/interface literal) *)
+(* a Go identifier over ASCII: a letter or `_`, then letters, digits, `_` *)
+Definition is_letter (c : ascii) : bool :=
+  let n := nat_of_ascii c in
+  (Nat.leb 65 n && Nat.leb n 90) || (Nat.leb 97 n && Nat.leb n 122) || Nat.eqb n 95.
+Definition is_digit (c : ascii) : bool :=
+  let n := nat_of_ascii c in Nat.leb 48 n && Nat.leb n 57.
+Fixpoint all_chars (f : ascii -> bool) (s : string) : bool :=
+  match s with
+  | EmptyString => true
+  | String c s' => f c && all_chars f s'
+  end.
+Definition is_ident (s : string) : bool :=
+  match s with
+  | EmptyString => false
+  | String c s' => is_letter c && all_chars (fun d => is_letter d || is_digit d) s'
+  end.
+
+(* a file name the go tool considers: not empty, not starting with `.` or `_` *)
+Definition visible_file (n : string) : bool :=
+  negb (n =? "") && negb (has_prefix "." n) && negb (has_prefix "_" n).
+
+(* a skeleton of the grammar: type names (package-level and function-local) are
+   identifiers and pairwise distinct, file names are visible to the go tool and
+   pairwise distinct, an alias declaration has a type name on its right-hand
+   side (not a struct/interface literal) *)
 Definition wf_pkgb (p : pkg) : bool :=
   nodupb (map ts_name (walk_pkg p)) &&
+  forallb is_ident (map ts_name (walk_pkg p)) &&
   nodupb (map f_name (p_files p)) &&
+  forallb visible_file (map f_name (p_files p)) &&
   forallb (fun t => negb (ts_alias t) || match ts_rhs t with RNamed => true | _ => false end) (walk_pkg p).
+
+(* the flag record of a real command line: an explicit -type list forces one file per type *)
+Definition flags_okb (fl : cflags) : bool := implb (fl_specified fl) (fl_sep fl).
 
 Definition is_local (p : pkg) (T : string) : bool := mem T (map ts_name (local_specs p)).
 
@@ -116,7 +148,7 @@ Definition k_enum_missing_silent (c : subcmd) (fl : cflags) (p : pkg) : bool :=
 Definition star_mode (fl : cflags) : bool := negb (fl_specified fl) && (fl_file fl =? "").
 
 Definition k_star_no_generate_line (c : subcmd) (fl : cflags) (p : pkg) : bool :=
-  star_mode fl && (all_in_one_file fl p =? "").
+  star_mode fl && (all_in_one_file fl p =? "") && negb (Nat.eqb (List.length (spec_selection c fl p)) 0).
 
 Definition k_star_sep_file (c : subcmd) (fl : cflags) (p : pkg) : bool :=
   star_mode fl && fl_sep fl &&
@@ -134,14 +166,14 @@ Definition known_class (c : subcmd) (fl : cflags) (p : pkg) : bool :=
   k_local_type_listed c fl p || k_lower_collision c fl p.
 
 (* does an outcome of the model (or an observation of the implementation) meet the expectation? *)
-Fixpoint srcmap_eqb (a b : srcmap) : bool :=
-  match a, b with
-  | [], [] => true
-  | (k, v) :: a', (k', v') :: b' =>
-      (k =? k') && (Nat.eqb (List.length v) (List.length v')) && forallb (fun xy => fst xy =? snd xy) (combine v v')
-      && srcmap_eqb a' b'
-  | _, _ => false
-  end.
+Definition types_eqb (v v' : list string) : bool :=
+  Nat.eqb (List.length v) (List.length v') && forallb (fun xy => fst xy =? snd xy) (combine v v').
+
+(* a srcmap is a Go map (and a directory listing): compared without order *)
+Definition has_entry (m : srcmap) (kv : string * list string) : bool :=
+  existsb (fun kv' => (fst kv' =? fst kv) && types_eqb (snd kv') (snd kv)) m.
+Definition srcmap_same (a b : srcmap) : bool :=
+  Nat.eqb (List.length a) (List.length b) && forallb (has_entry b) a && forallb (has_entry a) b.
 
 (* same multiset of strings (the message lists the files in map-iteration order) *)
 Fixpoint remove_one (x : string) (l : list string) : option (list string) :=
@@ -156,9 +188,15 @@ Fixpoint perm_eqb (a b : list string) : bool :=
   | x :: a' => match remove_one x b with Some b' => perm_eqb a' b' | None => false end
   end.
 
-Definition meets (o : outcome) (e : expect) : bool :=
+(* "output for a type declared in src.go is written to src.shoot<cmd>...": the
+   name of a written file starts with the base name of a source file of the package *)
+Definition anchored (c : subcmd) (p : pkg) (n : string) : bool :=
+  existsb (fun f => has_prefix (trim_go (f_name f) ++ "." ++ shootcmd c ++ ".") n) (p_files p).
+
+Definition meets (c : subcmd) (p : pkg) (o : outcome) (e : expect) : bool :=
   match o, e with
   | Failed _, EFail => true
-  | Done files listed, EFiles fs => srcmap_eqb files fs && perm_eqb listed (map fst fs)
+  | Done files listed, EFiles fs =>
+      srcmap_same files fs && perm_eqb listed (map fst fs) && forallb (anchored c p) (map fst files)
   | _, _ => false
   end.
